@@ -31,9 +31,9 @@ package fiber
 //             (trees that fall under a known finding, where every disagreement is attributed to it: <= 2 segments)
 //   part 2:   prefixes {"", "/", "/a", "/a/", "a", "/:p"} x {none, same six} x R x sibling {none, Get("/x") before and
 //             Use("/x", mw) after, Use(mw) before and Get("/") after}, through Group and through Route
-// Bound, FVC_TIER=thorough (about 7 min): A with sub lists of <= 3 routes and all styles with two siblings; C with sub
-//   of <= 2 routes and any <= 1 sibling of R before and after the mount (two siblings only with <= 1 route in sub);
-//   D with s of <= 1 route of R; everything also with Config{StrictRouting: true, CaseSensitive: true}.
+// Bound, FVC_TIER=thorough (about 5 min): A with sub lists of <= 3 routes; C additionally with the root siblings
+//   Use(mw) alone / Get("/x") alone, and with sub of 2 routes around mount(p2, leaf of <= 1 route) without or with
+//   both root siblings; D with s of <= 1 route of R; everything also with Config{StrictRouting: true, CaseSensitive: true}.
 //
 // Output: `FVC-CASES <evaluated (tree, request, mode) cases> <distinct non-empty observations>`;
 // `FVC-FAIL ...` per disagreement (at most 40 are printed in full, all are counted);
@@ -48,6 +48,10 @@ package fiber
 //                  nil group of a cloned mount marker (for "/" in "/" depending on map iteration order).
 //                  Predicate: below one application two mounted applications have the same joined prefix and one of
 //                  the two has a mount itself.
+//   strict-bare-use  Config.StrictRouting: middleware registered in the sub-application without a path (sub.Use(mw),
+//                  registered path "/") is spliced as prefix + "/" and no longer covers the mount prefix itself
+//                  ("/a"), while Group("/a").Use(mw) registers "/a". Predicate: StrictRouting and a mounted application
+//                  whose joined mount prefix is not "/" has a path-less Use(mw).
 
 import (
 	"fmt"
@@ -184,6 +188,33 @@ func (t *fvcC04Tree) keys(out map[string][]bool, base string) {
 		out[key] = append(out[key], it.sub.hasMount())
 		it.sub.keys(out, key)
 	}
+}
+
+// under StrictRouting: a path-less Use(mw) of a mounted application whose joined mount prefix is not "/"
+func (t *fvcC04Tree) strictBareUse(base string, mounted bool) bool {
+	for _, it := range t.items {
+		if it.kind == 4 && mounted && base != "/" {
+			return true
+		}
+		if it.kind >= 0 {
+			continue
+		}
+		rel := it.prefix
+		switch it.style {
+		case 1:
+			rel = fvcC04RefJoin("/", it.prefix)
+		case 3:
+			rel = fvcC04RefJoin("/a", it.prefix)
+		}
+		key := fvcC04Norm(rel)
+		if base != "" {
+			key = fvcC04Norm(fvcC04RefJoin(base, key))
+		}
+		if it.sub.strictBareUse(key, true) {
+			return true
+		}
+	}
+	return false
 }
 
 func (t *fvcC04Tree) keyCollision() bool {
@@ -412,6 +443,8 @@ func (s *fvcC04Stats) checkTree(t *testing.T, tree *fvcC04Tree, cfg Config, cfgN
 		known = "param-prefix"
 	case tree.keyCollision():
 		known = "key-collision"
+	case cfg.StrictRouting && tree.strictBareUse("", false):
+		known = "strict-bare-use"
 	}
 	s.trees++
 	twin := New(cfg)
@@ -447,7 +480,7 @@ func TestFVCBoundedC04MountEquiv(t *testing.T) {
 				for _, pre := range opt {
 					for _, post := range opt {
 						for style := 0; style < 4; style++ {
-							if style != 0 && len(pre)+len(post) == 2 && !thorough {
+							if style != 0 && len(pre)+len(post) == 2 {
 								continue
 							}
 							s.checkTree(t, fvcC04Cat(pre, fvcC04M(p, style, fvcC04Cat(sub)), post), cfg, cfgNames[ci])
@@ -470,12 +503,7 @@ func TestFVCBoundedC04MountEquiv(t *testing.T) {
 		type sib struct{ pre, post []fvcC04Item }
 		sibs := []sib{{}, {pre: opt[5], post: opt[2]}}
 		if thorough {
-			sibs = nil
-			for _, pre := range opt {
-				for _, post := range opt {
-					sibs = append(sibs, sib{pre, post})
-				}
-			}
+			sibs = []sib{{}, {pre: opt[5]}, {post: opt[2]}, {pre: opt[5], post: opt[2]}}
 		}
 		for _, leaf := range fvcC04Lists(2) {
 			for _, subRoutes := range fvcC04Lists(d2sub) {
@@ -483,8 +511,8 @@ func TestFVCBoundedC04MountEquiv(t *testing.T) {
 					for _, p1 := range prefixes {
 						for _, p2 := range prefixes {
 							for _, sb := range sibs {
-								if len(sb.pre)+len(sb.post) == 2 && len(subRoutes) == 2 {
-									continue
+								if len(subRoutes) == 2 && (len(leaf) == 2 || len(sb.pre)+len(sb.post) == 1) {
+									continue // thorough: a middle app of 2 routes with a leaf of <= 1 route, without or with both siblings
 								}
 								sub := fvcC04Cat(subRoutes[:mp], fvcC04M(p2, 0, fvcC04Cat(leaf)), subRoutes[mp:])
 								s.checkTree(t, fvcC04Cat(sb.pre, fvcC04M(p1, 0, sub), sb.post), cfg, cfgNames[ci])
